@@ -820,6 +820,17 @@ pub fn c13(items: &[Item], t: &mut Tally, idx: u64, rng: &mut Rng) {
     }
 
     // ---- Repeat (skipped / failed / custom) ----
+    // every 4th case the same writer sees a second run (the stream twice over): the writer that
+    // `run()` returns may be handed to the next run, and each run's matches are re-emitted once
+    let second_run = idx % 4 == 2;
+    let twice: Vec<Item> = if second_run { items.iter().chain(items).cloned().collect() } else { Vec::new() };
+    let outer_items = items;
+    {
+    let items: &[Item] = if second_run { &twice } else { outer_items };
+    let input: Vec<Rec> = fps(items);
+    if second_run {
+        t.count("c13.repeat_writers_fed_a_second_run", 1);
+    }
     let fin = input.iter().position(|r| r.ev == Ev::Finished);
     // every other case continues on a clone taken somewhere in the middle
     let clone_at = (idx % 2 == 1 && items.len() > 2).then(|| 1 + rng.below(items.len() - 1));
@@ -878,6 +889,9 @@ pub fn c13(items: &[Item], t: &mut Tally, idx: u64, rng: &mut Rng) {
             v.push((format!("{name}:sequence"), format!("inner writer got {} events, expected {} (input {} + repeats after run-Finished at {fin:?})", out.len(), expect.len(), input.len())));
         }
     }
+
+    }
+    let fin = input.iter().position(|r| r.ev == Ev::Finished);
 
     // ---- Tee ----
     {
